@@ -216,6 +216,10 @@ def run_case(case: dict) -> Result:
             res.excluded_known += 1
             break
         bad = compare(root, str(op), a.key())
+        if bad and bad[0] == 'reparse-rejected:unindented-comment-before-body-line' and not pinned:
+            # the open finding needs such a comment in the text beforehand (those documents are excluded above); here the edit itself wrote an
+            # unindented comment line into a body - not the known finding (round 8, seed C09-h)
+            bad = (f'reparse-rejected:{a.key()}:edit-wrote-unindented-comment-line', bad[1])
         if bad and (tight_pairs(root) - tight0) and a.removed and not a.inserted:
             # open finding: in a compact layout ('10.00USD', '1"a"2') the removed child was the only thing between its neighbours
             texts = [(x.raw_text, y.raw_text) for x, y in zip(O.store_tokens(root.token_store), O.store_tokens(root.token_store)[1:]) if (id(x), id(y)) in tight_pairs(root) - tight0]
